@@ -259,7 +259,7 @@ func (c19) Run(raw json.RawMessage) Result {
 			ch.kill()
 			c19Cur = nil
 		}
-	case <-time.After(c19Timeout + 12*time.Second):
+	case <-time.After(c19Timeout + 5*c19Timeout + 20*time.Second + 15*time.Second): // RunMurex re-examines a timeout once
 		o = c19Obs{Kind: 3}
 		ch.kill()
 		c19Cur = nil
